@@ -40,18 +40,21 @@ package json
 // nil error implies a well-formed value whose type conforms to the requested type.
 //@ func json.unmarshal
 //@   tags C17
+//@   alloc_limit 1024
 //@   borrows path
 //@   requires (and (wf_ty t) (not (has_opt t)))
 //@   ensures[C17] ok: (=> (= result.1 nil.Any) (decoded_ok result.0 t))
 //
 //@ func json.unmarshalPrimitive
 //@   tags C17
+//@   alloc_limit 1024
 //@   borrows path
 //@   requires (and (is_prim_ty t) (wf_ty t))
 //@   ensures[C17] ok: (=> (= result.1 nil.Any) (decoded_ok result.0 t))
 //
 //@ func json.unmarshalList
 //@   tags C17
+//@   alloc_limit 1024
 //@   borrows path
 //@   requires (and (wf_ty ety) (not (has_opt ety)))
 //@   ensures[C17] ok: (=> (= result.1 nil.Any) (decoded_ok result.0 (ty_list ety)))
@@ -60,6 +63,7 @@ package json
 //
 //@ func json.unmarshalSet
 //@   tags C17
+//@   alloc_limit 1024
 //@   borrows path
 //@   requires (and (wf_ty ety) (not (has_opt ety)))
 //@   ensures[C17] ok: (=> (= result.1 nil.Any) (decoded_ok result.0 (ty_set ety)))
@@ -68,6 +72,7 @@ package json
 //
 //@ func json.unmarshalMap
 //@   tags C17
+//@   alloc_limit 1024
 //@   borrows path
 //@   requires (and (wf_ty ety) (not (has_opt ety)))
 //@   ensures[C17] ok: (=> (= result.1 nil.Any) (decoded_ok result.0 (ty_map ety)))
@@ -77,6 +82,7 @@ package json
 //
 //@ func json.unmarshalTuple
 //@   tags C17
+//@   alloc_limit 1024
 //@   borrows path
 //@   let tup (mk.cty.Type (box<cty.typeTuple> (mk.cty.typeTuple mk.cty.typeImplSigil etys)))
 //@   requires (and (wf_ty tup) (not (has_opt tup)))
@@ -87,6 +93,7 @@ package json
 //
 //@ func json.unmarshalObject
 //@   tags C17
+//@   alloc_limit 1024
 //@   borrows path
 //@   requires (and (not (= atys 0)) (MapC<String~cty.Type>.ok (tmap atys)) (forall ((k String)) (! (=> (select (tmap_dom atys) k) (and (= (nfc k) k) (wf_ty (tmap_at atys k)) (not (has_opt (tmap_at atys k))))) :pattern ((select (tmap_dom atys) k)))))
 //@   ensures[C17] ok: (=> (= result.1 nil.Any) (decoded_ok result.0 (mk.cty.Type (box<cty.typeObject> (mk.cty.typeObject mk.cty.typeImplSigil atys 0)))))
@@ -101,6 +108,7 @@ package json
 // and capsule decoders.
 //@ func json.unmarshalDynamic
 //@   tags C17
+//@   alloc_limit 1024
 //@   borrows path
 //@   ensures[C17] ok: (=> (= result.1 nil.Any) (decoded_ok result.0 $G<cty.DynamicPseudoType>))
 //@   loop 1 invariant (or (= t $G<cty.NilType>) (wf_ty t))
